@@ -115,6 +115,32 @@ func genFilter(tier string, rng *RNG, emit func(Case)) {
 		}
 	}
 	rec(nil)
+	// directed: a real filter over the renderer's global attribute names is screened with every one- and
+	// adjacent-two-byte variant of each name; variants it accepts (none expected) become the queried universe
+	{
+		var names [][]byte
+		allowed := map[string]bool{}
+		for _, n := range globalAttrNames {
+			names = append(names, []byte(n))
+			allowed[n] = true
+		}
+		f := util.NewBytesFilter(names...)
+		var bad [][]byte
+		k := 0
+		for _, n := range globalAttrNames {
+			attrVariants(n, func(v []byte) {
+				k++
+				if allowed[string(v)] {
+					return
+				}
+				if (f.Contains(v) && len(bad) < 48) || (k%40009 == 0 && len(bad) < 60) {
+					bad = append(bad, append([]byte{}, v...))
+				}
+			})
+		}
+		emit(Case{Op: "run", Args: []string{keysArg(bad), "n:" + keysArg(names)}})
+		emit(Case{Op: "run", Args: []string{keysArg(bad), "n:" + keysArg(names[:9]) + ";e:0:" + keysArg(names[9:])}})
+	}
 	for i := 0; i < nrand; i++ {
 		n := 2 + rng.Intn(maxLen-1)
 		var prog []string
